@@ -898,6 +898,29 @@ pub fn run_clock(scratch: &std::path::Path, release_ms: u64, kind: u8, via_rln: 
         want_hwm = n.observed_hwm();
         drop(n);
     }
+    if kind == 2 {
+        // real sequence, real clock: drop, then immediately re-create (sled's own threads release the lock)
+        let t0 = std::time::Instant::now();
+        let r = guarded(|| open(via_rln));
+        out.counters.inc("reach.immediate_recreate_real_clock");
+        match r {
+            Err(p) => out.violation = Some(("open_panic".into(), p)),
+            Ok(Err(e)) => out.violation = Some(("immediate_recreate_failed".into(), e)),
+            Ok(Ok(mut n)) => {
+                if t0.elapsed().as_secs() > 60 {
+                    out.violation = Some(("recreate_not_in_bounded_time".into(), format!("{:?} of real time", t0.elapsed())));
+                    return out;
+                }
+                let (r, hwm) = (n.read_root().unwrap_or_default(), n.observed_hwm());
+                if r != want_root || hwm != want_hwm {
+                    out.violation = Some(("acknowledged_update_lost_on_contended_reopen".into(), format!("root or leaf count changed (leaves_set {hwm}, was {want_hwm}) after dropping an instance and re-creating it at once")));
+                    return out;
+                }
+                out.counters.inc("oracle_evaluations");
+            }
+        }
+        return out;
+    }
     crate::e1::wait_unlocked(&path);
     // 2. the simulator takes the lock, exactly as a previous owner whose threads have not finished
     let lock = match std::fs::OpenOptions::new().read(true).write(true).open(path.join("db")) {
